@@ -52,6 +52,9 @@ CHECKS['C14'] = dict(tech=T + ' of every member of Thread_Storage<Stack_Holder> 
 CHECKS['C08'] = dict(tech=T + ' (detail::clone_if_necessary, Inline_Array_AST_Node and Constant_AST_Node eval_internal) with abstract children and recorder callees',
    text='The copy rule that keeps literals out of reach of mutation: for every value kind (bool/string/other, arithmetic or not, const or not) a value that is not a pending return value is never stored itself - exactly one copy is made by the documented route; vector literals copy every element once, in order, into a fresh vector per evaluation; Constant and Inline_Array nodes are bit-identical after evaluation.',
    note='the copy routines themselves (Boxed_Number::clone, box constructors, script clone) are recorders; Inline_Map/Assign_Decl not covered yet; constness of literal values is C07/C16')
+CHECKS['C03'] = dict(tech=T + ': Operators::to_operator on all operator-alphabet strings, and evaluator nodes (Block, Scopeless_Block, If, While, Logical_And/Or, Equation, Inline_Array) against per-construct reference semantics written in the harness',
+   text='Per-construct obligations: every spelling of 1-4 operator characters denotes exactly the operation of the language reference (the hash dispatch confuses none); node-level semantics with abstract children: statement order and block value, branch selection, short circuit, loop/break/continue, assignment order and routing, vector-literal construction. Whole programs follow by induction over the tree (argued).',
+   note='precedence/associativity of the parser recursion, For/Ranged_For/Switch/Fun_Call/Lambda/Def/classes are not covered yet; children are abstract')
 ALL = ['C%02d' % i for i in range(1, 21)]
 def main():
     checks = []
